@@ -17,6 +17,14 @@ use crate::engine::{engine_for, Engine, COMMON_ASSUMPTIONS};
 
 pub const DEFAULT_FUEL: u64 = 1 << 22;
 
+/// allocation seam: largest single request a worker serves
+pub fn alloc_cap_for(prop: &str) -> usize {
+    match prop {
+        "C15" | "C16" | "C17" | "C13" | "C14" => 256 << 20,
+        _ => 1 << 30,
+    }
+}
+
 #[derive(Serialize, Deserialize, Default, Debug, Clone)]
 pub struct ChunkResult {
     pub from: u64,
@@ -102,6 +110,7 @@ pub fn exec_scenario(eng: &dyn Engine, prop: &str, sc: &Value, verbose: bool) ->
 
 pub fn worker_main(prop: &str, thorough: bool, seed: u64, from: u64, to: u64, careful: bool) -> i32 {
     install_panic_hook();
+    crate::set_alloc_cap(alloc_cap_for(prop));
     let eng = match engine_for(prop) {
         Some(e) => e,
         None => return 2,
@@ -137,6 +146,7 @@ pub fn worker_main(prop: &str, thorough: bool, seed: u64, from: u64, to: u64, ca
 /// `axsim exec-one <prop>`: scenario on stdin, deviations as one JSON line on stdout.
 pub fn exec_one_main(prop: &str, verbose: bool) -> i32 {
     install_panic_hook();
+    crate::set_alloc_cap(alloc_cap_for(prop));
     let eng = match engine_for(prop) {
         Some(e) => e,
         None => return 2,
@@ -712,10 +722,19 @@ pub fn check_main(prop: &str, thorough: bool, seed: u64) -> i32 {
     // unknown deviations: minimise, write replay, confirm in a fresh process
     let replay_dir = verif_dir().join("replays");
     let _ = std::fs::create_dir_all(&replay_dir);
+    if let Ok(rd) = std::fs::read_dir(&replay_dir) {
+        for e in rd.flatten() {
+            if e.file_name().to_string_lossy().starts_with(&format!("{prop}-")) {
+                let _ = std::fs::remove_file(e.path());
+            }
+        }
+    }
     let mut violations = 0u64;
     let mut violation_lines: Vec<String> = Vec::new();
-    for (n, (sig, occ)) in unknown.iter().enumerate() {
-        if n >= 6 {
+    let mut unknown_sorted: Vec<(&String, &Vec<(u64, Deviation)>)> = unknown.iter().collect();
+    unknown_sorted.sort_by(|a, b| b.1.len().cmp(&a.1.len()).then(a.0.cmp(b.0)));
+    for (n, (sig, occ)) in unknown_sorted.into_iter().enumerate() {
+        if n >= std::env::var("VERIF_MAX_MINIMISE").ok().and_then(|s| s.parse().ok()).unwrap_or(6usize) {
             println!("axsim: further distinct signatures not minimised: {sig} ({} runs)", occ.len());
             violations += 1;
             continue;
